@@ -130,19 +130,29 @@ static void gen_init(int thorough)
 }
 
 /* ------------------------------ C14: decode ------------------------------ */
+static int base_header(int kind, uint8_t *buf);
 static void decode_case(const uint8_t *src, int sz)
 {
 	uint8_t *exact = malloc(sz ? sz : 1);      /* exactly sized: a one-byte over-read is an ASan report */
 	memcpy(exact, src, sz);
 	rf_wavheader_t *h = malloc(sizeof(*h));
-	memset(h, 0x3C, sizeof(*h));
+	/* what the caller's structure held before: poison, zeros, or a header decoded into it earlier (extensible / float) */
+	static unsigned prior;
+	static uint8_t pbuf[256];
+	switch (prior++ % 5) {
+	case 0: case 1: memset(h, 0x3C, sizeof(*h)); break;
+	case 2: memset(h, 0, sizeof(*h)); break;
+	case 3: memset(h, 0, sizeof(*h)); rf_wavheader_decode(pbuf, base_header(3, pbuf), h); break;
+	case 4: memset(h, 0, sizeof(*h)); rf_wavheader_decode(pbuf, base_header(2, pbuf), h); break;
+	}
 	int ret = rf_wavheader_decode(sz ? exact : exact, sz, h);
+	int ro = memcmp(exact, src, sz) == 0;        /* the input is const: it must read back as it was */
 	int val = rf_wavheader_validate(h);
 	int fmt = rf_wavheader_get_format(h);
 	int ts = tostring_ok(h);
 	printf("{\"e\":\"Decode\",\"sz\":%d,", sz);
 	jbytes("b", src, sz);
-	printf(",\"ret\":%d,\"val\":%d,\"fmt\":%d,\"ts\":%d,", ret, val, fmt, ts);
+	printf(",\"ret\":%d,\"val\":%d,\"fmt\":%d,\"ts\":%d,\"ro\":%d,", ret, val, fmt, ts, ro);
 	jhdr("h", h);
 	int relen = -1000;
 	uint8_t *re = NULL;
